@@ -677,3 +677,50 @@ def units_rule(crate, prop, rule="C14.R17"):
     r.inst(bodies_examined=len(crate.bodies), sites=n, note="expected count is zero; positive example: seed C15_k in the self-test corpus")
     r.floor = 1
     return r
+
+
+def forwarding_rule(crate, prop, rule="C12.R7"):
+    """an impl whose name() is nothing but another type's name() (wrappers: `Box<T>` -> T; shadows: `HashSet<T>` -> `Vec<T>`)
+    stands for that type in every position: inlined and flattened as well"""
+    r = Result(rule, "every built-in `impl TS` whose name() only forwards to `<X as TS>::name()` also has its own inline() and inline_flattened(), each forwarding to the same method of the same X (read off the expanded impls): a method left to the trait's default, or forwarding elsewhere, makes the wrapper differ from the wrapped type when it is inlined or flattened")
+    by_impl = {}
+    for b in crate.bodies:
+        if b.raw.get("impl_trait") == "TS" and b.raw.get("assoc_name") and b.kind in ("Fn", "AssocFn"):
+            by_impl.setdefault(b.raw.get("impl_self"), {})[b.raw["assoc_name"]] = b
+
+    def sole_forward(b):
+        cs = [t for blk, t in b.calls() if not b.is_cleanup(blk)]
+        if len(cs) == 1 and fn_matches(cs[0], r"^TS::\w+$") and (cs[0]["fn"].get("args") or [None])[0]:
+            return cs[0]["fn"]["path"].split("::")[-1], cs[0]["fn"]["args"][0]
+        return None
+    n = 0
+    for ty, ms in sorted(by_impl.items(), key=lambda kv: str(kv[0])):
+        nb = ms.get("name")
+        fw = sole_forward(nb) if nb is not None else None
+        if not fw or fw[0] != "name" or fw[1] == "Self":
+            continue
+        n += 1
+        # a wrapper around a type parameter is transparent where a type is written; a shadow of a concrete type stands
+        # for it everywhere, its name, its declaration and its file included
+        shadow = fw[1] not in (nb.raw.get("generic_params") or [])
+        def base(s):
+            return re.sub(r"<.*$", "", s or "")
+        target = [v for k, v in by_impl.items() if base(k) == base(fw[1])]
+        for m in (("inline", "inline_flattened", "ident", "decl", "decl_concrete", "output_path") if shadow else ("inline", "inline_flattened")):
+            if m not in ("inline", "inline_flattened") and not (len(target) == 1 and m in target[0]):
+                continue        # the shadowed type leaves this one to the trait's default as well (or its impl is not in this build)
+            if m in ("decl", "decl_concrete") and any(fn_matches(t2, r"panicking::panic") for _, t2 in target[0][m].calls()):
+                continue        # "cannot be declared": nothing to forward
+            mb = ms.get(m)
+            got = sole_forward(mb) if mb is not None else None
+            ok = got == (m, fw[1])
+            r.inst(impl=ty, forwards_to=fw[1], method=m, own_body=mb is not None, calls=got, ok=ok)
+            if not ok:
+                r.fail(prop, "forward-mismatch %s %s" % (norm_ty(re.sub(r"\b(\w+::)+", "", ty or "")), m),
+                       "`impl TS for %s` forwards name() to %s but %s: the type is not represented like %s when it is %s" % (
+                           ty, fw[1], ("leaves %s() to the trait's default" % m) if mb is None else ("%s() calls %s" % (m, got)), fw[1], {"inline": "inlined", "inline_flattened": "flattened"}.get(m, "asked for its %s" % m)),
+                       (mb or nb).file(), (mb or nb).line())
+    if n == 0:
+        r.fail(prop, "anchor-missing forwarding impls", "no impl TS whose name() forwards to another type found")
+    r.floor = 10
+    return r
